@@ -9,9 +9,9 @@ import support as S
 
 RULE = ("priors: poly_trend in {1,2,3} x n_offsets in {0,1,2} x K prior {default, custom Normal} x jitter {0, sampled} x period prior unit "
         "{day, yr} x data unit {km/s, m/s}; 6-7 epochs per survey (interleaved surveys), non-zero prior means; 6 seeded prior rows each incl. "
-        "e up to 0.95 and one row pinned at the K-variance cap; compared to rtol 1e-6 (5e-5 with a quadratic trend: conditioning); non-trivial = every case (jitter or trend or offsets)")
+        "e up to 0.95 and one row pinned at the K-variance cap; compared to rtol max(1e-6, 2e-12 cond(B)), capped at 1e-3 (both evaluations lose about eps cond(B)); non-trivial = every case (jitter or trend or offsets)")
 EXHAUSTIVE = False
-BOUNDED = ["floating point: agreement to rtol 1e-6 / atol 1e-6 (Kepler tolerance 1e-10 in the kernel)"]
+BOUNDED = ["floating point: agreement to rtol max(1e-6, 2e-12 cond(B)) / atol 1e-6 (Kepler tolerance 1e-10 in the kernel)"]
 BUDGET_S = {"quick": 120, "thorough": 900}
 KERNEL_IN_SYNC = None
 
@@ -162,11 +162,13 @@ def check(inp):
     vu = u.Unit(inp["vu"])
     s_col = samples["s"].to_value(vu) if "s" in samples.par_names else np.zeros(len(samples))
     rows = np.column_stack([samples["P"].to_value(u.day), np.asarray(samples["e"]), samples["omega"].to_value(u.rad), samples["M0"].to_value(u.rad), s_col])
-    want = closed_form(prior, data, rows, inp)
+    want, parts_ = closed_form(prior, data, rows, inp, parts=True)
     if not np.all(np.isfinite(ll)):
         bad("finite-for-valid-input", ll=ll)
-    # quadratic trend columns over a baseline of >1000 d make B ill-conditioned: both evaluations lose digits there
-    rtol = 1e-6 if inp["pt"] <= 2 else 5e-5
+    # trend columns over a baseline of several hundred days make B = C + M Lambda M^T ill-conditioned: BOTH evaluations (the kernel's Woodbury form and
+    # this direct solve) lose about eps * cond(B) in relative accuracy, so the comparison tolerance follows the condition number of the case
+    cond = max(float(np.linalg.cond(p_[3] + p_[0] @ p_[2] @ p_[0].T)) for p_ in parts_)
+    rtol = min(1e-3, max(1e-6, 2e-12 * cond))
     if not np.allclose(ll, want, rtol=rtol, atol=1e-6):
         # surveys interleaved in time run into the (separately listed) C08 label defect: reported under its own clause name
         tag = "[multi-survey-interleaved]" if inp.get("layout") == "interleaved" else ""      # (other layouts carry no tag)
